@@ -509,8 +509,12 @@ class _Normalizer:
                 while i < len(blk):
                     st = blk[i]
                     i += 1
-                    if not (isinstance(st, ast.Assign) and len(st.targets) == 1 and isinstance(st.targets[0], ast.Name) and plain(st.value)
-                            and st.value.elts and len(st.value.elts) <= me.UNROLL_MAX and all(simple_elt(x) for x in st.value.elts)):
+                    is_dict = isinstance(st, ast.Assign) and isinstance(st.value, ast.Dict) and st.value.keys and \
+                        len(st.value.keys) <= me.UNROLL_MAX and all(isinstance(k, ast.Constant) and isinstance(k.value, str) for k in st.value.keys) \
+                        and all(simple_elt(v) or (isinstance(v, ast.Subscript) and _is_simple(v.value) and isinstance(v.slice, ast.Constant))
+                                for v in st.value.values)
+                    if not (isinstance(st, ast.Assign) and len(st.targets) == 1 and isinstance(st.targets[0], ast.Name) and (is_dict or (
+                            plain(st.value) and st.value.elts and len(st.value.elts) <= me.UNROLL_MAX and all(simple_elt(x) for x in st.value.elts)))):
                         continue
                     nm = st.targets[0].id
                     if nm in params or len(stores_of(nm)) != 1:
@@ -528,6 +532,8 @@ class _Normalizer:
                         continue
                     def ok_use(u):
                         p_ = parents[id(u)]
+                        if is_dict:
+                            return isinstance(p_, ast.keyword) and p_.arg is None      # f(**d)
                         if isinstance(p_, ast.Starred):
                             return True
                         if isinstance(p_, ast.Subscript) and p_.value is u and isinstance(p_.ctx, ast.Load):
@@ -541,7 +547,7 @@ class _Normalizer:
                     # arguments are evaluated first) with call-free callee expressions; nothing stores in between
                     last = max(k for k, stmt in enumerate(blk[i:]) if any(x is u for u in uses for x in ast.walk(stmt)))
                     span = blk[i:i + last + 1]
-                    names_read = {y.id for x in st.value.elts for y in ast.walk(x) if isinstance(y, ast.Name)}
+                    names_read = {y.id for x in (st.value.values if is_dict else st.value.elts) for y in ast.walk(x) if isinstance(y, ast.Name)}
                     safe = True
                     for k, stmt in enumerate(span):
                         if not isinstance(stmt, (ast.Assign, ast.Expr, ast.Return, ast.AugAssign, ast.AnnAssign)):
@@ -727,6 +733,16 @@ class _Normalizer:
 
             def visit_ListComp(self_, n):
                 return self_._comp(n, lambda n_, outs: ast.List(elts=[self_.visit(subst(n_.elt, b)) for b in outs], ctx=ast.Load()))
+
+            def visit_GeneratorExp(self_, n):
+                # a generator over a constant table whose items are constants themselves: the tuple of those constants
+                # (nothing is evaluated, so when it is consumed does not matter)
+                def make(n_, outs):
+                    elts = [self_.visit(subst(n_.elt, b)) for b in outs]
+                    if all(_is_const_display(x) for x in elts):
+                        return ast.Tuple(elts=elts, ctx=ast.Load())
+                    return n_
+                return self_._comp(n, make)
 
             def visit_Call(self_, n):
                 n = self_.generic_visit(n)
